@@ -2,6 +2,7 @@
     src/funcs.rs). *)
 From Coq Require Import List ZArith NArith Bool Floats.SpecFloat.
 From AG Require Import Str F64 Value Json.
+From AG Require Generated.
 Import ListNotations.
 Open Scope string_scope.
 Open Scope list_scope.
@@ -79,12 +80,8 @@ Definition parse_hex (s : str) : res value :=
          end
   end.
 
-Definition known_funcs : list str :=
-  map lit ["abs"; "acos"; "asin"; "atan"; "atan2"; "cbrt"; "ceil"; "cos"; "cosh"; "exp";
-           "expm1"; "floor"; "hypot"; "log"; "log10"; "log1p"; "round"; "sin"; "sinh";
-           "sqrt"; "tan"; "tanh"; "toDegrees"; "toRadians"; "concat"; "contains";
-           "length"; "parseDate"; "parseHex"; "substring"; "toLowerCase"; "toUpperCase";
-           "isNull"; "isEmpty"; "isBlank"; "isNumeric"; "num"; "now"].
+(** the function table of src/funcs.rs (FUNC_MAP), re-read from the source on every run *)
+Definition known_funcs : list str := map lit Generated.func_names.
 
 Definition is_known_func (f : str) : bool := existsb (str_eqb f) known_funcs.
 
